@@ -258,4 +258,9 @@ example : pow3 1 3 6 1000 = none ∧ pow3 1 3 2 (-5) = none ∧ pow3 1 3 2 5 = s
     pow3 1 3 2 0 = none ∧ reflShiftDunder .lshift 2 0x0101 1 4 = some (0x1010, 2) ∧
     reflShiftDunder .lshift 1 1 2 8 = some (0, 1) := by decide
 
+/-- negation is unsupported for EVERY operand (zero included); `+a` and `abs a` are `a` in its own type -/
+theorem unary (w a : Nat) (ha : a < 2 ^ (8 * w)) :
+    evalUn .neg w a = none ∧ evalUn .pos w a = some (a, w) ∧ evalUn .abs w a = some (a, w) := by
+  simp [evalUn, wrapN_eq, ha]
+
 end Rmk.C13
